@@ -2646,6 +2646,28 @@ def c20_single_quote_step(repo_root, tier):
 
 
 @register("C01")
+def c01_range_layout(repo_root, tier):
+    """The meaning of a range does not depend on layout: a variable is a PATH token when the dots follow it directly (`a..3`) and a
+    WORD token when whitespace comes first (`a .. 3`); the range scanner accepts the same kinds of token for its start as for its stop."""
+    repo = Repo(repo_root)
+    obs = []
+    m = repo.module("liquid2.lexer")
+    fn = m.find("Lexer.accept_range") if m else None
+    sets = {}
+    for t in ast.walk(fn) if fn is not None else []:
+        if isinstance(t, ast.If) and isinstance(t.test, ast.Compare) and isinstance(t.test.ops[0], ast.NotIn) and isinstance(t.test.comparators[0], ast.Tuple):
+            who = ast.unparse(t.test.left)
+            sets[who] = {ast.unparse(e) for e in t.test.comparators[0].elts}
+    start = sets.get("range_start_token.type_", set())
+    stop = sets.get("range_stop_token.type_", set())
+    ok = bool(start) and start == stop and "TokenType.WORD" in start and "TokenType.PATH" in start
+    _ob(obs, "liquid2.lexer:Lexer.accept_range/site.start-and-stop-accept-the-same-tokens", ok,
+        f"start and stop of a range accept {sorted(x.split('.')[-1] for x in start)}" if ok
+        else f"range start accepts {sorted(x.split('.')[-1] for x in start)}, stop accepts {sorted(x.split('.')[-1] for x in stop)}: `(a .. 3)` (a WORD before the dots) is rejected while `(a..3)` is accepted")
+    return {"obligations": obs, "samples": [], "trusted": [], "functions": [], "assumptions": []}
+
+
+@register("C01")
 def c01_array_string_form(repo_root, tier):
     """The Liquid string form of an array is the concatenation of the Liquid string forms of its items (nil vanishes, booleans
     are true/false, nested arrays flatten): in both copies of the stringifier every join over the items applies the stringifier
